@@ -18,7 +18,7 @@ stated as `…_partial` (restricted operation set) next to `…_counterexample`s
 kept in a comment.  `tstd`/`tvar` on a constant trait (D9) were repaired in /repo by 94b833ce: the
 model is the repaired code, the theorems are full, the old behaviour is `tstd_prerepair_counterexample`.
 -/
-import PybropsModel.Lemmas.BVMatStat
+import PybropsModel.Lemmas.BVMatSpecSound
 import Mathlib.Analysis.Real.Sqrt
 set_option autoImplicit false
 set_option linter.unusedSectionVars false
@@ -384,6 +384,36 @@ theorem history_refines_from_numpy_partial (sq : α → α) (needs : Bool) (ops 
       simp only [Except.map]
       exact ih hrest r.1 r.2
 
+/-- **The same with numpy's index objects.**  `select_taxa`, `delete_taxa`, `insert_taxa` may be called
+    with negative positions, slices, boolean masks and several insert positions (one value each, or
+    one value broadcast); each argument is normalised by numpy's rules for the CURRENT number of taxa
+    (`OpIx.norm`, the normalisers of C03).  Any such history refines `from_numpy` of the raw edits, and
+    is rejected (IndexError / ValueError) exactly when the raw edit is. -/
+theorem history_ix_refines_from_numpy_partial (sq : α → α) (needs : Bool) (ops : List (OpIx α))
+    (h : ∀ o ∈ ops, o.restandardises = true) (cols : List (Col α)) (taxa : List Nat) :
+    runIx sq needs ops (fromNumpy sq cols taxa) =
+      (runRawIx ops (cols, taxa)).map (fun r => fromNumpy sq r.1 r.2) := by
+  induction ops generalizing cols taxa with
+  | nil => rfl
+  | cons o ops ih =>
+    have ho := h o List.mem_cons_self
+    have hrest : ∀ x ∈ ops, x.restandardises = true := fun x hx => h x (List.mem_cons_of_mem _ hx)
+    simp only [runIx, runRawIx, fromNumpy_taxa]
+    cases hn : o.norm taxa.length with
+    | error e => rfl
+    | ok op =>
+      have hop := norm_restandardises o taxa.length op ho hn
+      simp only []
+      rw [applyOp_restandardises sq needs op hop]
+      have : rawOf (fromNumpy sq cols taxa) = (cols, taxa) := by
+        simp [rawOf, unscale_fromNumpy, fromNumpy_taxa]
+      rw [this]
+      cases hr : applyRaw op (cols, taxa) with
+      | error e => rfl
+      | ok r =>
+        simp only [Except.map]
+        exact ih hrest r.1 r.2
+
 /-- **Raw values are preserved along a history** of the four operations above, in-place
     `reorder_taxa` and in-place `remove_taxa`, starting from ANY matrix: `unscale()` of the result is
     the same edit of `unscale()` of the start, taxon identities included. -/
@@ -584,6 +614,226 @@ theorem remove_stale_location_counterexample (sq : ℚ → ℚ) (h1 : sq 1 = 1) 
   · simp [tmean]
   · decide +kernel
 
+/-! ## 4b. What the inherited operations compute (the as-is behaviour behind D23–D25), exactly -/
+
+/-- **D23, as is.**  For the base class the inherited `concat_taxa` returns a matrix whose `unscale()`
+    is the concatenation of the STORED (standardised) matrices, with location 0 and scale 1 for every
+    trait; taxon identities are concatenated correctly. -/
+theorem concat_asis (sq : α → α) (vs : List (BV α)) (b : BV α)
+    (h : (vs.all fun o => o.traits.length == b.traits.length) = true) :
+    ∃ b', applyOp sq false (.concat vs) b = .ok b' ∧
+      unscale b' = vs.foldl (fun acc o => List.zipWith (· ++ ·) acc (o.traits.map (·.mat))) (b.traits.map (·.mat)) ∧
+      (∀ tr ∈ b'.traits, tr.loc = some 0 ∧ tr.scale = some 1) ∧
+      b'.taxa = vs.foldl (fun acc o => acc ++ o.taxa) b.taxa := by
+  refine ⟨{ traits := (vs.foldl (fun acc o => List.zipWith (· ++ ·) acc (o.traits.map (·.mat)))
+                          (b.traits.map (·.mat))).map (fun m => { mat := m, loc := some 0, scale := some 1 }),
+            taxa := vs.foldl (fun acc o => acc ++ o.taxa) b.taxa }, ?_, ?_, ?_, ?_⟩
+  · simp only [applyOp, h, Bool.not_true, Bool.false_eq_true, if_false]
+  · simp only [unscale, List.map_map]
+    conv_rhs => rw [← List.map_id (List.foldl _ _ _)]
+    apply List.map_congr_left
+    intro m _
+    exact unscaleCol_zero_one m
+  · intro tr htr
+    simp only [List.mem_map] at htr
+    obtain ⟨m, _, rfl⟩ := htr
+    exact ⟨rfl, rfl⟩
+  · rfl
+
+/-- **D23, as is (estimated classes).**  Every shape-correct `concat_taxa` request raises TypeError. -/
+theorem concat_asis_estimated (sq : α → α) (vs : List (BV α)) (b : BV α)
+    (h : (vs.all fun o => o.traits.length == b.traits.length) = true) :
+    applyOp sq true (.concat vs) b = .error .type := by
+  simp [applyOp, h]
+
+/-- **D24, as is.**  After the inherited in-place `append_taxa` the old taxa keep their raw values; an
+    appended taxon whose STORED value (operand's `.mat`, or the raw ndarray entry) is `w` reads
+    `scale·w + location` with the RECEIVER's location and scale, which are left unchanged. -/
+theorem append_asis (sq : α → α) (needs : Bool) (v : Operand α) (b : BV α)
+    (h : v.stored.length = b.traits.length) :
+    ∃ b', applyOp sq needs (.append v) b = .ok b' ∧
+      unscale b' = List.zipWith (fun tr w => unscaleCol tr ++ w.map (unscaleEntry tr.loc tr.scale)) b.traits v.stored ∧
+      b'.traits.map (·.loc) = b.traits.map (·.loc) ∧ b'.traits.map (·.scale) = b.traits.map (·.scale) ∧
+      b'.taxa = b.taxa ++ v.taxa := by
+  refine ⟨{ traits := List.zipWith (fun tr w => { tr with mat := tr.mat ++ w }) b.traits v.stored,
+            taxa := b.taxa ++ v.taxa }, ?_, ?_, ?_, ?_, ?_⟩
+  · simp only [applyOp]
+    rw [if_neg (by simpa using h)]
+  · simp only [unscale]
+    exact unscale_zipWith_mat (· ++ ·) b.traits v.stored (fun tr w => List.map_append)
+  · exact map_zipWith_left (fun tr w => ({ tr with mat := tr.mat ++ w } : Trait α)) (·.loc) (·.loc)
+      (fun _ _ => rfl) _ _ h
+  · exact map_zipWith_left (fun tr w => ({ tr with mat := tr.mat ++ w } : Trait α)) (·.scale) (·.scale)
+      (fun _ _ => rfl) _ _ h
+  · rfl
+
+/-- **D24, as is.**  The same for the inherited in-place `incorp_taxa` (block inserted before `k`). -/
+theorem incorp_asis (sq : α → α) (needs : Bool) (k : Nat) (v : Operand α) (b : BV α)
+    (h : v.stored.length = b.traits.length) (hk : k ≤ b.taxa.length) :
+    ∃ b', applyOp sq needs (.incorp k v) b = .ok b' ∧
+      unscale b' = List.zipWith (fun tr w => Np.insert k (w.map (unscaleEntry tr.loc tr.scale)) (unscaleCol tr))
+                    b.traits v.stored ∧
+      b'.traits.map (·.loc) = b.traits.map (·.loc) ∧ b'.traits.map (·.scale) = b.traits.map (·.scale) ∧
+      b'.taxa = Np.insert k v.taxa b.taxa := by
+  refine ⟨{ traits := List.zipWith (fun tr w => { tr with mat := Np.insert k w tr.mat }) b.traits v.stored,
+            taxa := Np.insert k v.taxa b.taxa }, ?_, ?_, ?_, ?_, ?_⟩
+  · simp only [applyOp]
+    rw [if_neg (by simpa using h), if_neg (by omega)]
+  · simp only [unscale]
+    exact unscale_zipWith_mat (fun m w => Np.insert k w m) b.traits v.stored
+      (fun tr w => (insert_map _ k w tr.mat).symm)
+  · exact map_zipWith_left (fun tr w => ({ tr with mat := Np.insert k w tr.mat } : Trait α)) (·.loc) (·.loc)
+      (fun _ _ => rfl) _ _ h
+  · exact map_zipWith_left (fun tr w => ({ tr with mat := Np.insert k w tr.mat } : Trait α)) (·.scale) (·.scale)
+      (fun _ _ => rfl) _ _ h
+  · rfl
+
+/-- **D25, as is.**  The inherited in-place `remove_taxa` deletes the rows of the stored matrix, so
+    `unscale()` of the retained taxa is intact, and leaves location and scale exactly as they were
+    (those of the matrix before the removal). -/
+theorem remove_asis (sq : α → α) (needs : Bool) (idx : List Nat) (b : BV α)
+    (h : ∀ i ∈ idx, i < b.taxa.length) :
+    ∃ b', applyOp sq needs (.remove idx) b = .ok b' ∧
+      unscale b' = (unscale b).map (Np.delete idx) ∧
+      b'.traits.map (·.loc) = b.traits.map (·.loc) ∧ b'.traits.map (·.scale) = b.traits.map (·.scale) ∧
+      b'.taxa = Np.delete idx b.taxa := by
+  have hall : (idx.all fun x => decide (x < b.taxa.length)) = true := by
+    rw [List.all_eq_true]; intro i hi; exact decide_eq_true (h i hi)
+  refine ⟨{ traits := b.traits.map (fun tr => { tr with mat := Np.delete idx tr.mat }),
+            taxa := Np.delete idx b.taxa }, ?_, ?_, ?_, ?_, ?_⟩
+  · simp only [applyOp]
+    rw [if_pos hall]
+  · simp only [unscale, List.map_map]
+    apply List.map_congr_left
+    intro tr _
+    simp only [Function.comp, unscaleCol_with_mat]
+    exact (delete_map _ _ _).symm
+  · simp [List.map_map, Function.comp]
+  · simp [List.map_map, Function.comp]
+  · rfl
+
+/-! ## 4c. The proposed overrides meet the full statement for all nine operations -/
+
+/-- **Repaired refinement, any history of all nine operations.**  With `append/incorp/remove_taxa`
+    delegating to `adjoin/insert/delete_taxa` and `concat_taxa` built as unscale → concatenate →
+    `from_numpy` (`applyOpRepaired`), EVERY history of valid requests (`ValidHistory`: the only
+    constraint beyond `applyRaw` is that `reorder_taxa` gets a permutation) applied to
+    `from_numpy(raw)` yields exactly `from_numpy` of the same edits of the raw data, and is rejected
+    exactly when the raw edit is.  This is the FULL STATEMENT of §4 for the repaired model. -/
+theorem repaired_history_refines_from_numpy (sq : α → α) (ops : List (Op α)) (r : Raw α)
+    (hv : ValidHistory ops r) :
+    runRepaired sq ops (fromNumpy sq r.1 r.2) = (runRaw ops r).map (fun r' => fromNumpy sq r'.1 r'.2) := by
+  induction ops generalizing r with
+  | nil => rfl
+  | cons op ops ih =>
+    obtain ⟨hop, hrest⟩ := hv
+    have hraw : rawOf (fromNumpy sq r.1 r.2) = r := by
+      simp [rawOf, unscale_fromNumpy, fromNumpy_taxa]
+    have key : applyOpRepaired sq op (fromNumpy sq r.1 r.2)
+        = (applyRaw op r).map (fun r' => fromNumpy sq r'.1 r'.2) := by
+      by_cases hre : ∃ idx, op = .reorder idx
+      · obtain ⟨idx, rfl⟩ := hre
+        obtain ⟨hperm, hrect⟩ := hop
+        have := reorder_permutation_keeps_standardised sq false idx r.1 r.2 hperm hrect
+        simp only [applyOpRepaired]
+        rw [this]
+        have hall : (idx.all fun x => decide (x < r.2.length)) = true := by
+          rw [List.all_eq_true]
+          intro i hi
+          exact decide_eq_true (List.mem_range.mp (hperm.mem_iff.mp hi))
+        simp only [applyRaw]
+        rw [if_pos hall]; rfl
+      · have := applyOpRepaired_refines sq op (fun idx h => hre ⟨idx, h⟩) (fromNumpy sq r.1 r.2)
+        rw [hraw] at this
+        exact this
+    simp only [runRepaired, runRaw]
+    rw [key]
+    cases hr : applyRaw op r with
+    | error e => rfl
+    | ok r' =>
+      rw [hr] at hrest
+      simp only [Except.map]
+      exact ih r' hrest
+
+/-- consequently every retained taxon's raw values and identity are preserved by any valid history
+    of the nine repaired operations, and the result is stored standardised (so §2–§3 apply) -/
+theorem repaired_history_preserves_raw (sq : α → α) (ops : List (Op α)) (r : Raw α)
+    (hv : ValidHistory ops r) (b : BV α) (hb : runRepaired sq ops (fromNumpy sq r.1 r.2) = .ok b) :
+    ∃ r', runRaw ops r = .ok r' ∧ unscale b = r'.1 ∧ b.taxa = r'.2 ∧ b = fromNumpy sq r'.1 r'.2 := by
+  have := repaired_history_refines_from_numpy sq ops r hv
+  rw [hb] at this
+  cases hr : runRaw ops r with
+  | error e => rw [hr] at this; cases this
+  | ok r' =>
+    rw [hr] at this
+    simp only [Except.map] at this
+    have hb' : b = fromNumpy sq r'.1 r'.2 := by injection this
+    exact ⟨r', rfl, by rw [hb', unscale_fromNumpy], by rw [hb']; rfl, hb'⟩
+
+/-! ## 4d. The model meets the Spec oracle (`c15.spec`) at zero tolerance -/
+
+/-- **Spec soundness.**  `Spec.specCol` (Model/BVMatSpec.lean) is the decidable predicate the driver op
+    `c15.spec` evaluates on the implementation's observations of one trait (round trip, NaN positions,
+    location = mean, scale² = variance or unit scale, centred / unit-variance storage, the eight
+    statistics and arg-extrema), with tolerances.  At ZERO tolerance it accepts what the model shows for
+    `from_numpy(raw)` — every non-empty trait, constant / NaN-bearing / all-NaN ones included, for any
+    `sq` meeting the square-root contract and any tolerance scalers `sqT`, `mag`.  So a Spec failure on
+    the implementation can only come from the implementation (or from float rounding beyond the
+    tolerance), never from the Spec demanding more than the model delivers. -/
+theorem spec_sound (sq sqT : α → α) (hc : Spec.SqrtContract sq) (mag : α) (c : Col α) (hne : c ≠ []) :
+    Spec.specCol sqT Spec.tol0 mag true c (Spec.modelObs sq (fromNumpyCol sq c)) = [] := by
+  have hraw : Spec.rawOk Spec.tol0 mag c (unscaleCol (fromNumpyCol sq c)) = true := by
+    rw [unscaleCol_fromNumpyCol]; exact Spec.rawOk0_self mag c
+  have hstd : Spec.standardisedCol sqT Spec.tol0 mag c (fromNumpyCol sq c).mat (unscaleCol (fromNumpyCol sq c))
+      (fromNumpyCol sq c).loc (fromNumpyCol sq c).scale = none := by
+    rw [unscaleCol_fromNumpyCol]; exact Spec.standardisedCol0 sq sqT hc mag c
+  have hmax : Spec.statOk Spec.tol0 mag Spec.listMax c (tmax true (fromNumpyCol sq c)) = true := by
+    rw [tmax_unscaled sq hc.nonneg, ← Spec.expectProp_listMax]; exact Spec.statOk0_prop mag _ c
+  have hmin : Spec.statOk Spec.tol0 mag Spec.listMin c (tmin true (fromNumpyCol sq c)) = true := by
+    rw [tmin_unscaled sq hc.nonneg, ← Spec.expectProp_listMin]; exact Spec.statOk0_prop mag _ c
+  have hrng : Spec.statOk Spec.tol0 mag (fun l => Spec.listMax l - Spec.listMin l) c
+      (trange true (fromNumpyCol sq c)) = true := by
+    rw [trange_unscaled sq hc.nonneg, ← Spec.expectProp_ptp]; exact Spec.statOk0_prop mag _ c
+  have hmean : Spec.statOk Spec.tol0 mag meanL c (tmean true (fromNumpyCol sq c)) = true := by
+    rw [tmean_unscaled]; exact Spec.statOk0_nanmean mag c
+  have hamax : Spec.argOk Spec.tol0 mag Spec.listMax c (some (targmax (fromNumpyCol sq c))) = true := by
+    rw [targmax_eq_raw sq hc.nonneg]; exact Spec.argOk0_colArgmax mag c hne
+  have hamin : Spec.argOk Spec.tol0 mag Spec.listMin c (some (targmin (fromNumpyCol sq c))) = true := by
+    rw [targmin_eq_raw sq hc.nonneg]; exact Spec.argOk0_colArgmin mag c hne
+  have hsd : Spec.stdOk sqT Spec.tol0 mag c (tstd sq true (fromNumpyCol sq c)) = true := by
+    rw [tstd_unscaled sq hc.zero hc.one hc.sq_mul]; exact Spec.stdOk0_nanstd sq sqT hc mag c
+  have hvr : Spec.varOk sqT Spec.tol0 mag c (tvar true (fromNumpyCol sq c)) = true := by
+    rw [tvar_unscaled sq hc.zero hc.sq_mul]; exact Spec.varOk0_nanvar sqT mag c
+  simp only [Spec.specCol, Spec.statsCol, Spec.modelObs, hraw, hstd, hmax, hmin, hrng, hmean, hamax, hamin, hsd,
+    hvr, if_true, List.append_nil]
+
+/-- the same for a trait of a matrix with 0 taxa (statistics not requested: numpy raises there) -/
+theorem spec_sound_no_taxa (sq sqT : α → α) (hc : Spec.SqrtContract sq) (mag : α) (c : Col α) :
+    Spec.specCol sqT Spec.tol0 mag false c (Spec.modelObs sq (fromNumpyCol sq c)) = [] := by
+  have hraw : Spec.rawOk Spec.tol0 mag c (unscaleCol (fromNumpyCol sq c)) = true := by
+    rw [unscaleCol_fromNumpyCol]; exact Spec.rawOk0_self mag c
+  have hstd : Spec.standardisedCol sqT Spec.tol0 mag c (fromNumpyCol sq c).mat (unscaleCol (fromNumpyCol sq c))
+      (fromNumpyCol sq c).loc (fromNumpyCol sq c).scale = none := by
+    rw [unscaleCol_fromNumpyCol]; exact Spec.standardisedCol0 sq sqT hc mag c
+  simp [Spec.specCol, Spec.modelObs, hraw, hstd]
+
+/-- **… along any history.**  After any history of the four class-defined operations every trait of the
+    resulting model matrix passes the zero-tolerance Spec against the corresponding trait of the edited
+    raw data — the statement `c15.spec` checks on the implementation after every step. -/
+theorem spec_sound_history_partial (sq sqT : α → α) (hc : Spec.SqrtContract sq) (mag : α) (needs : Bool)
+    (ops : List (Op α)) (h : ∀ op ∈ ops, op.restandardises = true) (cols : List (Col α)) (taxa : List Nat)
+    (b : BV α) (r : Raw α)
+    (hb : run sq needs ops (fromNumpy sq cols taxa) = .ok b) (hr : runRaw ops (cols, taxa) = .ok r)
+    (j : Nat) (c : Col α) (hj : r.1[j]? = some c) (hne : c ≠ []) :
+    ∃ tr, b.traits[j]? = some tr ∧ Spec.specCol sqT Spec.tol0 mag true c (Spec.modelObs sq tr) = [] := by
+  have := history_refines_from_numpy_partial sq needs ops h cols taxa
+  rw [hb, hr] at this
+  simp only [Except.map] at this
+  have hb' : b = fromNumpy sq r.1 r.2 := by injection this
+  subst hb'
+  refine ⟨fromNumpyCol sq c, ?_, spec_sound sq sqT hc mag c hne⟩
+  simp [fromNumpy, List.getElem?_map, hj]
+
 /-! ## 5. DenseScaledMatrix -/
 
 /-- `untransform(transform(x)) = x` for a non-zero scale, NaN entries included -/
@@ -654,6 +904,8 @@ example : Real.sqrt 0 = 0 := Real.sqrt_zero
 example (v : ℝ) (h : 0 ≤ v) : Real.sqrt v * Real.sqrt v = v := Real.mul_self_sqrt h
 example (v : ℝ) (h : 0 < v) : Real.sqrt v ≠ 0 := (Real.sqrt_pos.mpr h).ne'
 example : Real.sqrt 1 = 1 := Real.sqrt_one
+example : Spec.SqrtContract Real.sqrt :=
+  ⟨Real.sqrt_zero, Real.sqrt_one, Real.sqrt_nonneg, fun _ h => Real.mul_self_sqrt h⟩
 example : varL (present [some (1 : ℚ), none, some 3]) ≠ 0 := by decide +kernel
 
 -- a 3 x 2 matrix with a NaN and a constant trait: round trip, statistics (sq := id suffices because
@@ -677,6 +929,25 @@ example : runRaw ([Op.select [1, 1, 0], Op.adjoin (.nd [[some 7]] [5]), Op.delet
 example : runRaw ([Op.select [2]] : List (Op ℚ)) ([[some 1, some 3]], [0, 1]) = .error .index := by decide +kernel
 example : (∀ op ∈ ([Op.reorder [1, 0], Op.remove [0]] : List (Op ℚ)), op.keepsRaw = true) := by decide
 example : ([2, 0, 1] : List Nat).Perm (List.range ([0, 1, 2] : List Nat).length) := by decide
+-- numpy index objects: negative positions, a boolean mask, a slice, two insert positions, one value broadcast
+example : runRawIx ([OpIx.select [-1, 0, 1], OpIx.delete (.mask [false, true, false]),
+      OpIx.insert (.list [0, 2]) (.nd [[some 7, some 8]] [5, 6]), OpIx.delete (.slice (some 1) (some 3) none),
+      OpIx.insert (.list [-1, 2]) (.nd [[none]] [9])] : List (OpIx ℚ)) ([[some 1, some 3, some 4]], [0, 1, 2])
+    = .ok ([[some 7, none, some 8, none]], [5, 9, 6, 9]) := by decide +kernel
+example : runRawIx ([OpIx.select [3]] : List (OpIx ℚ)) ([[some 1, some 3, some 4]], [0, 1, 2]) = .error .index := by
+  decide +kernel
+example : (∀ o ∈ ([OpIx.select [-1, 0, 1], OpIx.delete (.mask [false, true, false]),
+      OpIx.insert (.list [0, 2]) (.nd [[some 7, some 8]] [5, 6])] : List (OpIx ℚ)), o.restandardises = true) := by
+  decide
+-- a valid history that uses all five inherited operations (and is accepted by the raw semantics)
+example : ValidHistory ([Op.append (.nd [[some 7]] [5]), Op.reorder [2, 0, 1], Op.remove [0],
+      Op.incorp 1 (.nd [[none]] [6]), Op.concat []] : List (Op ℚ)) ([[some 1, some 3]], [0, 1]) := by
+  simp [ValidHistory, Op.validAt, applyRaw, Operand.values, Operand.taxa, Np.take, Np.delete, Np.insert,
+    List.zipIdx]
+  decide
+example : runRaw ([Op.append (.nd [[some 7]] [5]), Op.reorder [2, 0, 1], Op.remove [0],
+      Op.incorp 1 (.nd [[none]] [6]), Op.concat []] : List (Op ℚ)) ([[some 1, some 3]], [0, 1])
+    = .ok ([[some 1, none, some 3]], [0, 6, 1]) := by decide +kernel
 example : (∀ i ∈ [2, 0, 2], i < ([0, 1, 2] : List Nat).length) ∧
     (∀ c ∈ ([[some 1, none, some 3]] : List (Col ℚ)), c.length = ([0, 1, 2] : List Nat).length) := by decide
 
